@@ -29,6 +29,10 @@ const SHAPES = {
   identOptsPartial: { args: (s) => `${s}, uName`, user: ['name'] },
   callOpts: { args: (s) => `${s}, mkOpts()`, user: ['props', 'emits', 'name'] },
   condOpts: { args: (s) => `${s}, flag ? uAll : uName`, user: ['props', 'emits', 'name'] },
+  // further positional arguments stay where they are
+  threeIdent: { args: (s) => `${s}, uName, 'third'`, user: ['name'], third: true },
+  threeObj: { args: (s) => `${s}, { inheritAttrs: false }, 'third', 4`, user: [], third: true },
+  threeCall: { args: (s) => `${s}, mkOpts(), uProps`, user: ['props', 'emits', 'name'], third: true },
   spreadArgs: { args: () => '...uArgs', user: '*', spreadArgs: true },
   spreadRest: { args: (s) => `${s}, ...uRest`, user: '*', spreadArgs: true },
   objectFirst: { args: () => "{ name: 'ObjOwn', setup() { return () => null; } }", user: '*', objectFirst: true },
@@ -126,6 +130,7 @@ function judge(c, resps) {
     if (k === 'name' && typeof callOff.args[0] === 'function' && !(callOff.args[1] && 'name' in callOff.args[1])) continue; // Function.name fallback, not user-written
     if (stable(cv(eff[k], ctx)) !== stable(cv(effUser[k], ctxOff))) viol.push({ clause: 'user-wins', diff: `${k}:overridden`, msg: `the user's ${k} option is not what Vue receives`, expected: cv(effUser[k], ctxOff), observed: cv(eff[k], ctx) });
   }
+  if (!sh.spreadArgs && (call.args.length !== Math.max(callOff.args.length, 2) && call.args.length !== callOff.args.length || stable(cv(call.args.slice(2), ctx)) !== stable(cv(callOff.args.slice(2), ctxOff)))) viol.push({ clause: 'other-args-untouched', diff: 'args:moved-or-lost', msg: 'arguments after the options argument are not what the user wrote', expected: cv(callOff.args.slice(2), ctxOff), observed: cv(call.args.slice(2), ctx) });
   if (sh.spreadArgs) {
     if (call.args.length !== callOff.args.length) viol.push({ clause: 'spread-args-alone', diff: 'args:count-changed', msg: `a spread argument list was changed (${callOff.args.length} -> ${call.args.length} arguments)`, expected: callOff.args.length, observed: call.args.length });
   }
@@ -141,7 +146,7 @@ function judge(c, resps) {
   }
   const uniq = new Map();
   for (const v of viol) if (!uniq.has(v.clause + v.diff)) uniq.set(v.clause + v.diff, v);
-  return { viol: [...uniq.values()], obs: stable(cv(eff, ctx)), clauses: ['user-wins', 'injects', 'name', 'spread-args-alone'] };
+  return { viol: [...uniq.values()], obs: stable(cv(eff, ctx)), clauses: ['user-wins', 'injects', 'name', 'spread-args-alone', 'other-args-untouched'] };
 }
 
 function* cases(tier) {
